@@ -110,6 +110,47 @@ theorem C18_no_number_from_zero_division (normalized : Bool) (d up lo base : Rat
   · simp only [coef, quot]
     split <;> simp
 
+/-! ### the formulas and the structure of the CURRENT source (`translate/c18.py` → `Generated/C18Expr.lean`) -/
+
+open Mxl.Generated.C18 in
+/-- every table entry the model computes IS the source's expression: `coef` is the regenerated difference quotient
+    `(upper - lower) / (2 * displacement * old)`, times the regenerated factor `old / base` when normalised (and `none`
+    exactly where the float division has no finite value); the three routines use the same quotient and factor -/
+theorem C18_source_formulas (normalized : Bool) (d old up lo base : Rat) :
+    coef normalized d old up lo base =
+      (if 2 * d * old = 0 then none
+       else if normalized then (if base = 0 then none else some (varQuot up lo d old * varScale old base))
+       else some (varQuot up lo d old)) ∧
+    parQuot up lo d old = varQuot up lo d old ∧ respQuot up lo d old = varQuot up lo d old ∧
+    respFluxQuot up lo d old = varQuot up lo d old ∧ parScale old base = varScale old base ∧
+    respScale old base = varScale old base ∧ respFluxScale old base = varScale old base := by
+  refine ⟨?_, rfl, rfl, rfl, rfl, rfl, rfl⟩
+  simp only [coef, quot, varQuot, varScale]
+  by_cases h1 : 2 * d * old = 0
+  · simp [h1]
+  · simp only [h1, if_false]
+    cases normalized with
+    | false => simp
+    | true =>
+      by_cases h2 : base = 0
+      · simp [h2]
+      · simp [h2]
+
+open Mxl.Generated.C18 in
+/-- the perturbed values of the source are the ones the model evaluates at: `old·(1+d)` and `old·(1−d)` in all three
+    routines (`varElasticityOf`, `parTry`, `respTry` are written with exactly these terms) -/
+theorem C18_source_perturbations (old d : Rat) :
+    varUp old d = old * (1 + d) ∧ varLo old d = old * (1 - d) ∧ parUp old d = old * (1 + d) ∧
+    parLo old d = old * (1 - d) ∧ respUp old d = old * (1 + d) ∧ respLo old d = old * (1 - d) := by
+  refine ⟨?_, ?_, ?_, ?_, ?_, ?_⟩ <;> simp only [varUp, varLo, parUp, parLo, respUp, respLo]
+
+open Mxl.Generated.C18 in
+/-- structure of the source: both model-writing routines reset in a `finally:` (the models above branch on these
+    flags, the frame theorems need them to be `true`), and `parameter_elasticities` resolves `variables` once, before
+    the first perturbation, handing it to every flux evaluation -/
+theorem C18_source_structure :
+    parFinallyResets = true ∧ respFinallyRestores = true ∧ parStateResolvedOnce = true := by decide
+
 /-! ### the model is left as it was found -/
 
 /-- `parameter_elasticities`, ALL PATHS: whatever happens — a table is returned, an unknown parameter, a flux
